@@ -300,7 +300,54 @@ func (m c09) placement(c *core.Ctx, wl c09wl, point string, nth int, action stri
 	case "abort5":
 		n = 5
 	}
-	if action == "cancel" {
+	var queued chan struct{} // closed when the queued second Run has returned
+	stopQueued := func() {
+		q := queued
+		if q == nil {
+			return
+		}
+		queued = nil
+		for i := 0; i < 20000; i++ {
+			select {
+			case <-q:
+				c.Count("queued_runs_stopped")
+				return
+			case <-time.After(500 * time.Microsecond):
+			}
+			c09abort(vm)
+		}
+		c.Inconclusive("the queued second Run could not be stopped: " + wl.name + "@" + point)
+		c09stuck.Store(true)
+	}
+	defer stopQueued()
+	if action == "abort+run" {
+		// Abort, then a second Run of the same VM is started from another goroutine while the first is still inside:
+		// it waits for the VM's mutex. The first run (and every child VM it starts from now on) must still stop.
+		ctl.action = func() {
+			c09abort(vm)
+			ctl.mu.Lock()
+			before := ctl.seen["run.enter"]
+			ctl.mu.Unlock()
+			g2 := ugo.Map{"TICK": &ugo.Function{Name: "TICK", Value: func(...ugo.Object) (ugo.Object, error) { return ugo.Undefined, nil }},
+				"CALLP": mkCall(true), "CALLU": mkCall(false)}
+			q := make(chan struct{})
+			queued = q
+			go func() {
+				defer close(q)
+				_, _ = vm.Run(g2)
+			}()
+			for i := 0; i < 20000; i++ {
+				ctl.mu.Lock()
+				now := ctl.seen["run.enter"]
+				ctl.mu.Unlock()
+				if now > before {
+					break
+				}
+				time.Sleep(100 * time.Microsecond)
+			}
+			time.Sleep(200 * time.Microsecond)
+		}
+	} else if action == "cancel" {
 		ctl.action = cancel
 	} else {
 		ctl.action = func() {
@@ -473,6 +520,10 @@ poll:
 		return
 	}
 	adv = counter.Load() - nA
+	stopQueued()
+	if c09stuck.Load() {
+		return
+	}
 	if lost {
 		what := "Abort is lost"
 		if action == "cancel" {
@@ -822,6 +873,28 @@ func (m c09) Run(c *core.Ctx) {
 				}
 				for r := 0; r < reps; r++ {
 					m.placement(c, wl, pt, 1, act, race)
+				}
+			}
+		}
+	}
+	// Abort followed by a second Run queued on the same VM while the first is still inside a callback / child VM
+	for _, name := range []string{"child-infinite", "nested-child", "child-tailcall-spin", "cb-pooled", "loop"} {
+		wl := byName[name]
+		for _, pt := range wl.points {
+			if pt == "run.enter" {
+				continue // neither Run holds the mutex yet: which of the two runs first is not determined
+			}
+			for _, race := range []bool{false, true} {
+				idx++
+				if idx%c.NBatch != c.Batch {
+					continue
+				}
+				desc := fmt.Sprintf("%s point=%s nth=1 action=abort+run racing=%v", wl.name, pt, race)
+				if !c.Begin(func() string { return desc }) {
+					continue
+				}
+				for r := 0; r < reps; r++ {
+					m.placement(c, wl, pt, 1, "abort+run", race)
 				}
 			}
 		}
